@@ -133,6 +133,18 @@ def workspaces(rng, quick):
         k = rng.randrange(len(parts))
         parts[k] = parts[k] + rng.choice(WIDE)
         out.append(({"/main.td": rng.choice(WIDE) + ";".join(parts).replace("\n", rng.choice(["\n", "\r\n", "\r"])) + rng.choice(WIDE)}, "/main.td", "wide"))
+    # what is reported AT the end of the text (an open conditional, an unterminated string / comment / code fragment, a statement
+    # the end cuts short) when the text ends in a multi-byte character and has no final line break
+    opens = ["#ifdef FOO\n", "#ifndef FOO\n", "#define X\n#ifdef X\n", "#ifndef G\n#else\n", "#ifdef FOO\n#else\n", ""]
+    tails = ["// \u7d42", "/* \u00e9", "\"\u540d", "[{ \u00fc", "def \"\u540d\u524d\" : A;\u3000", "\u00e9", "class \U0001F600", "def d : A<\u2026", "include \"\u00fc.td"]
+    eofbase = [t for t in texts if len(t) < 300][: (12 if quick else 200)] + ["class A;\n", ""]
+    for t in eofbase:
+        for _ in range(2 if quick else 6):
+            out.append(({"/main.td": rng.choice(opens) + t + rng.choice(tails)}, "/main.td", "eofwide"))
+    for o in opens:
+        for tl in tails:
+            out.append(({"/main.td": o + "class A;\n" + tl}, "/main.td", "eofwide"))
+            out.append(({"/main.td": 'include "inc.td"\n', "/inc.td": o + "class A;\n" + tl}, "/main.td", "eofwide"))
     # a closing delimiter (or `;`, `=`, `...`) typed as its non-ASCII look-alike: the construct is left open and the character
     # right behind it is multi-byte - positions computed "one past the node" or "behind the token that must follow" land inside it
     alike = {"}": "\uff5d", "]": "\uff3d", ")": "\uff09", ">": "\uff1e", ";": "\uff1b", "=": "\uff1d", ",": "\uff0c", "...": "\u2026", "-": "\u2013", ":": "\uff1a"}
